@@ -100,9 +100,9 @@ def conds(tier):
     M = "harness.c05"
     return [
         xh.Cond(M, "c05_one_class", t(420, 3000), path_timeout=60, kind="shape-bounded", examples=["code=101, boost=1, ser=1, nsdepth=1", "code=383, boost=0, ser=0, nsdepth=2"],
-                bounds="all %d class shapes%s" % (NC, " x both serialization settings x serialize marker x namespace depth 0-2" if not q else "; serialization / marker / namespace depth derived from the shape code")),
+                bounds="all %d class shapes%s" % (NC, " x both serialization settings x serialize marker (namespace depth derived)" if not q else "; serialization / marker / namespace depth derived from the shape code")),
         xh.Cond(M, "c05_two_classes", t(420, 3000), path_timeout=60, kind="shape-bounded", examples=["a=3, b=77, fshape=2, boost=0", "a=7, b=383, fshape=3, boost=1"],
-                bounds=("%d representative first classes x all %d second classes x 4 free-function shapes x serialization" % (NREP, NC)) if not q else ("%d x %d representative class pairs; free-function shape and serialization derived" % (NREP, NREP))),
+                bounds=("%d representative first classes x every third of the %d class shapes as second class (free-function shape / serialization derived)" % (NREP, NC)) if not q else ("%d x %d representative class pairs; free-function shape and serialization derived" % (NREP, NREP))),
         xh.Cond(M, "c05_three_classes", t(420, 3000), path_timeout=60, kind="shape-bounded", examples=["a=1, b=5, c=9, fshape=3"],
-                bounds=("%d^3 representative class triples x 4 free-function shapes" % NREP) if not q else ("%d x %d representative pairs with a derived third class and free-function shape" % (NREP, NREP))),
+                bounds=("%d^3 representative class triples (free-function shape derived)" % NREP) if not q else ("%d x %d representative pairs with a derived third class and free-function shape" % (NREP, NREP))),
     ]
